@@ -73,8 +73,12 @@ TStart ==
   /\ pend' = [ev |-> "none"] /\ started' = IF drv = "run" THEN started ELSE pend.o
   /\ UNCHANGED dead
 
+(* is_closed() as reported right after the call returned: true exactly when the driver is gone (absent on returns of
+   stream starts, where the handle is inside the stream) *)
+ClosedOK == ("closed" \notin DOMAIN E) \/ (E.closed <=> (drv # "run"))
 TRet ==
   /\ Is("Ret") /\ Adv /\ UNCHANGED <<pend, dead>>
+  /\ Chk(ClosedOK, "closed")
   /\ LET o == E.o IN
      \/ /\ E.r = "val" /\ reply[o].st = "val" /\ RecvReply(o)
         /\ Chk(reply[o].m.tok = E.tok, "route") /\ UNCHANGED started
